@@ -37,6 +37,13 @@ CHECKS = {   # seeded id -> [(property check, --only obligations or None)]
     'C10-b': [('C10', None)],
     'C12-b': [('C12', 'text_write_cast_dot,text_write')],
     'C13-b': [('C13', 'proxy_handshake_fault_discards_quick')],
+    # third round
+    'C04-c': [('C04', None)],
+    'C07-c': [('C01', 'msp_request_odd_member_sint1,msp_request_odd_member_sint3'), ('C07', None)],
+    'C11-c': [('C11', 'negated_exit,curated_2,ops1_00')],
+    'C15-c': [('C15', None)],
+    'C16-c': [('C16', None)],
+    'C20-c': [('C20', 'roundtrip_float_selected,roundtrip_int,roundtrip_list2')],
 }
 
 
